@@ -853,7 +853,12 @@ func (r *resolver) findGrouping(y *Uses) (*Grouping, error) {
 				// issue #50 - submodules can reference types in parent and in any
 				// other submodule w/o prefix
 				if m, isModule := p.(*Module); isModule && m.belongsTo != nil {
-					p = m.Parent().(Definition)
+					// not loaded thru an include, there is no module it belongs to
+					if main, loadedByInclude := m.Parent().(Definition); loadedByInclude {
+						p = main
+					} else {
+						p = nil
+					}
 				}
 			}
 		}
